@@ -38,6 +38,8 @@ def main():
         p0 = sh(["/venv/bin/python", demo, wt], env=env, timeout=1800, cwd=cand)
         verdict["demo_pristine_exit"] = p0.returncode
         p = sh(["git", "-C", wt, "apply", os.path.join(cand, "patch.diff")])
+        if p.returncode:
+            p = sh(["git", "-C", wt, "apply", "-3", os.path.join(cand, "patch.diff")])
         verdict["patch_applies"] = p.returncode == 0
         if p.returncode:
             verdict["apply_error"] = p.stdout.decode()[:500]
